@@ -9,7 +9,10 @@ from .. import values as V
 from . import common
 from .common import py_elementwise, do_arith, BIN_OPS, UN_OPS, ARITH_VALUES
 
-RULE = ("every arithmetic operator x operand form (vector, scalar, list/tuple, reflected scalar, reflected list, unary) x dtype pair x "
+from . import recompute
+
+RULE = ("[plus the shared recompute-after-history monitor: this property's operations evaluated on long-lived objects between in-place writes / renames must equal the same operations on fresh objects rebuilt from the current contents] "
+	"every arithmetic operator x operand form (vector, scalar, list/tuple, reflected scalar, reflected list, unary) x dtype pair x "
 	"length {0,1,2,5} x None pattern is executed on the real Vector and compared, type-aware, with the Python operator applied to the "
 	"i-th operands in written order; unequal lengths must raise; table-with-scalar / table-with-table must equal the per-column vector "
 	"operation; every public str/int/float/bool/date/datetime method or property reachable through attribute broadcasting is called with "
@@ -25,7 +28,7 @@ ASSUMPTIONS = [
 EXHAUSTIVE = {"flag": False, "scope": "operator x form x kind-pair product is complete; values are sampled"}
 ANCHOR_FUNCS = ["vector:Vector._elementwise_operation", "vector:Vector.__radd__", "vector:Vector._unary_operation",
 	"table:Table._table_elementwise_operation", "vector:MethodProxy.__call__", "vector:Vector.__getattr__", "vector:_Date.__add__"]
-REQUIRED_STRATA = {"arith-value": 2000, "arith-len-mismatch": 50, "table-arith": 50, "method": 300, "date-days": 20}
+REQUIRED_STRATA = {"recompute": 200, "arith-value": 2000, "arith-len-mismatch": 50, "table-arith": 50, "method": 300, "date-days": 20}
 
 
 def kinds_sig(vals):
@@ -265,7 +268,7 @@ def run_date_days(chk, spec):
 		chk.fail("dates + days: element i is date_i plus the days", f"date-days/element-mismatch/{form}", f"{spec!r}: {short(got, 160)} vs {short(exp, 160)}: {d}")
 
 
-RUNNERS = {"arith": run_arith, "table_arith": run_table_arith, "method": run_method, "date_days": run_date_days}
+RUNNERS = {"arith": run_arith, "table_arith": run_table_arith, "method": run_method, "date_days": run_date_days, "recompute": recompute.runner("C05")}
 
 PAIRS = [("int", "int"), ("int", "float"), ("float", "int"), ("bool", "int"), ("int", "complex"), ("float", "float"), ("str", "str"),
 	("str", "int"), ("date", "timedelta"), ("datetime", "timedelta"), ("timedelta", "timedelta"), ("timedelta", "int"), ("list", "list"),
@@ -314,6 +317,7 @@ def product_specs(chk):
 
 
 def run(chk):
+	recompute.add_cases(chk, "C05")
 	rng = chk.rng
 	for spec in product_specs(chk):
 		chk.case("arith", spec, "arith-" + spec["form"])
